@@ -66,6 +66,8 @@ def ref_point(P, S, t, shift):
 
 
 def make_points(case):
+    if case["style"] == "raw":
+        return np.array(case["points"], dtype=float).reshape(-1, 2)
     if case["style"] == "grid":
         # distinct points of a coarse dyadic grid: centroids of Delaunay triangles land EXACTLY on the cell boundary
         den = case["den"]
@@ -632,12 +634,21 @@ def gen_cases(tier, seed, count=None):
     return cases
 
 
+def corpus_cases():
+    """minimised past failures (corpus/C03/*.json), run first"""
+    import glob
+    out = []
+    for f in sorted(glob.glob(os.path.join(VERIF, "corpus", "C03", "*.json"))):
+        out.append(json.load(open(f))["case"])
+    return out
+
+
 def run(ctx):
     ctx.res.rule = ("point styles uniform/clustered/two_cluster/jittered/boundary/collinear of harness/gen.py, N=2..60 (thorough ..220) skewed to N<=13, both shift_vertices, "
                     "coordinates either rounded to 30 binary digits (replication p+k exact) or raw float64; plus a 'grid' family (N=2..13 distinct points of a 1/8, 1/16, 1/32 grid, where "
                     "centroids fall EXACTLY on the cell boundary: evaluated for shift_vertices=True, where the float centroid is exact); a case counts (non-trivial, distinct by hash of points+shift) only when its "
                     "independent certificate validates, the density precondition holds and it is generic; everything else is in 'skipped'")
-    evaluate(ctx, gen_cases(ctx.tier, ctx.seed), "S")
+    evaluate(ctx, corpus_cases() + gen_cases(ctx.tier, ctx.seed), "S")
 
 
 def search(ctx):
